@@ -232,7 +232,17 @@ def run(ctx):
         # every successful path must agree
         sets = allsets[0] if allsets and all(x == allsets[0] for x in allsets) else [("paths-disagree", allsets)]
         return outs, sets
-    for (values, index, newv) in (([3, 1, 2], 0, 0), ([3, 1, 2], 1, 5), ([2, 2, 2], 1, 7), ([4], 0, 9), ([1, 5], 1, 1)):
+    import itertools as _it
+    cb_cases = [([3, 1, 2], 0, 0), ([3, 1, 2], 1, 5), ([2, 2, 2], 1, 7), ([4], 0, 9), ([1, 5], 1, 1),
+                # a value that jumps over equal neighbours: outputs inside the shifted range that keep their value
+                ([19, 19, 20, 24], 3, 3), ([24, 19, 20, 19], 0, 3), ([3, 19, 19, 20], 0, 24), ([5, 5, 5, 9], 3, 1),
+                ([1, 5, 5, 5], 0, 9), ([2, 4, 4, 6, 6], 4, 0)]
+    for n_ in (1, 2, 3):
+        for vals_ in _it.product((0, 1, 2), repeat=n_):
+            for idx_ in range(n_):
+                for nv_ in (0, 1, 2):
+                    cb_cases.append((list(vals_), idx_, nv_))
+    for (values, index, newv) in cb_cases:
         outs, sets = run_cb(values, index, newv)
         newvals = list(values)
         newvals[index] = newv
